@@ -56,6 +56,8 @@ def run_history(ctx, case):
                 w.accounts[op[1]].app_send(text_entity(mid, body, w.accounts[op[2]].jid))
             elif op[0] == "reinstall":
                 w.accounts[op[1]].reinstall()
+            elif op[0] == "clone":          # account op[1] reinstalls carrying the identity key pair of account op[2]
+                w.accounts[op[1]].reinstall(clone_of=w.accounts[op[2]])
             elif op[0] == "restart":
                 w.accounts[op[1]].restart()
             elif op[0] == "notify":         # server -> account op[1]: "op[2] has a new identity" (encrypt notification)
@@ -201,6 +203,7 @@ def oracle(case, rec, bodies):
     for idx in range(n):
         auto = case["autotrust"][idx]
         pinned = {}
+        stored = set()      # contacts the COMMITTED identities table has shown a key for (since the own reinstall)
         evs = rec.events[idx]
         asked_by = {}       # key request number -> tag of the input during which the account made it
         i = 0
@@ -216,6 +219,7 @@ def oracle(case, rec, bodies):
                 j += 1
             if ev["tag"] == "reinstall":
                 pinned = {}
+                stored = set()
             if ev["tag"] in ("reinstall", "restart"):
                 asked_by = {}       # the new process knows nothing of the old one's requests: their answers are ignored
             for o in outs:
@@ -241,6 +245,15 @@ def oracle(case, rec, bodies):
                                          if sess_after.get(c) else "")))
                     if after != pinned:
                         bad.append(("pin_lost_on_restart", "account %d: %r -> %r" % (idx, pinned, after)))
+            # 0'. a key that WAS in the committed table does not disappear from it (whatever is saved for other contacts)
+            if after is not None and ev["tag"] != "reinstall":
+                for c in sorted(stored):
+                    if c not in after:
+                        bad.append(("not_remembered", "account %d: the stored key of %d (identity %r) is gone from the "
+                                    "identities table after %s%s" %
+                                    (idx, c, pinned.get(c), ev["tag"],
+                                     " of %r" % ev.get("peer") if ev.get("peer") is not None else "")))
+                stored = set(c for c in stored if c in after)
             # 0. the first key seen is remembered: whoever we encrypt for / are shown a message from has a stored key
             if after is not None:
                 for o in msg_out:
@@ -298,6 +311,7 @@ def oracle(case, rec, bodies):
                         if not delivered and t.get("pkok", True) and not t.get("dupseen"):
                             pass    # delivery is checked by the scripted histories (needs the number to be fresh)
             if after is not None:
+                stored.update(after.keys())
                 for c, k in after.items():
                     if auto or c not in pinned:
                         pinned[c] = k
@@ -350,6 +364,25 @@ def scripted_cases():
                            ["send", 0, 1, "x"]],
                    "expect": {"1": False, "2": auto}})
     for auto in (False, True):
+        # --- two contacts with the SAME identity key (seeded defect C17-4: saving a key for one contact drops the row
+        # of every other contact holding that key).  0 = A (observed), 1 = B, 2 = C.
+        # B pinned (key K); C appears as a clone of B's identity (same K) and A sets up a session with it (bundle);
+        # A restarts; B reinstalls (K'): the bundle fetched to serve B's retry and B's first message must be refused
+        cs.append({"name": "shared-key-original-changes-%s" % auto, "n": 3, "autotrust": [auto, False, False],
+                   "ops": [["send", 0, 1], ["send", 1, 0], ["clone", 2, 1], ["send", 0, 2], ["send", 2, 0],
+                           ["restart", 0], ["reinstall", 1], ["send", 0, 1], ["send", 1, 0]],
+                   "expect": {"1": True, "2": True, "3": True, "4": True, "5": auto, "6": auto}})
+        # the same with C learnt from its first message and no restart; B's first message comes before A's send
+        cs.append({"name": "shared-key-learnt-by-first-message-%s" % auto, "n": 3, "autotrust": [auto, False, False],
+                   "ops": [["send", 0, 1], ["send", 1, 0], ["clone", 2, 1], ["send", 2, 0], ["reinstall", 1],
+                           ["send", 1, 0], ["send", 0, 1]],
+                   "expect": {"1": True, "2": True, "3": True, "4": auto, "5": auto}})
+        # mirrored: the clone C is pinned first, then B shows up with the same key; later C changes its identity
+        cs.append({"name": "shared-key-clone-pinned-first-%s" % auto, "n": 3, "autotrust": [auto, False, False],
+                   "ops": [["clone", 2, 1], ["send", 0, 2], ["send", 2, 0], ["send", 0, 1], ["send", 1, 0],
+                           ["restart", 0], ["reinstall", 2], ["send", 0, 2], ["send", 2, 0]],
+                   "expect": {"1": True, "2": True, "3": True, "4": True, "5": auto, "6": auto}})
+    for auto in (False, True):
         # the anchor scenario: talk, B reinstalls, A sends, B sends, A restarts, A sends again
         cs.append({"name": "reinstall-autotrust-%s" % auto, "n": 2, "autotrust": [auto, False],
                    "ops": [["send", 0, 1], ["send", 1, 0], ["reinstall", 1], ["send", 0, 1], ["send", 1, 0],
@@ -394,6 +427,31 @@ def scripted_cases():
     return cs
 
 
+def legalise(ops, n):
+    """Keep the generated history inside the property's domain: two accounts that hold the SAME identity key pair
+    never talk to each other (an installation facing its own identity key is not a contact; python-axolotl cannot
+    even set up such a session), and nobody is cloned while stanzas are held in the queue (a held stanza would
+    otherwise reach a party that meanwhile took the sender's key)."""
+    ident = list(range(n))
+    fresh = n
+    held = False
+    out = []
+    for op in ops:
+        if op[0] == "clone":
+            if held or ident[op[1]] == ident[op[2]]:
+                continue
+            ident[op[1]] = ident[op[2]]
+        elif op[0] == "reinstall":
+            ident[op[1]] = fresh
+            fresh += 1
+        elif op[0] in ("send", "notify"):
+            if ident[op[1]] == ident[op[2]]:
+                continue
+        out.append(op)
+        held = op[0] in ("send", "notify") and "hold" in op[3:]     # every op that does not hold drains the queue
+    return out
+
+
 def random_case(rng, tier):
     n = rng.choice([2, 2, 3])
     auto = [rng.random() < .4 for _ in range(n)]
@@ -417,6 +475,8 @@ def random_case(rng, tier):
             if rng.random() < .15:
                 op.append("hold")
             ops.append(op)
+        elif r < .975 and n == 3:
+            ops.append(["clone", a, b])     # a reinstalls carrying b's identity key pair
         else:
             ops.append(["dup"])
     if rng.random() < .3:
@@ -432,6 +492,20 @@ def random_case(rng, tier):
         motif = learn + [["restart", a], ["reinstall", c]] + after
         at = 0 if rng.random() < .5 else rng.randrange(len(ops) + 1)
         ops[at:at] = motif
+    if n == 3 and rng.random() < .2:
+        # two contacts of a hold the same identity key; then one of them changes its identity
+        a, b, c = rng.sample(range(3), 3)
+        meet = lambda x: rng.choice([[["send", a, x, "x"]], [["send", x, a, "x"]],
+                                     [["send", a, x, "x"], ["send", x, a, "x"]], [["notify", a, x]]])
+        first, second = (meet(b) + [["clone", c, b]], meet(c)) if rng.random() < .5 else \
+                        ([["clone", c, b]] + meet(c), meet(b))
+        changed = rng.choice([b, c])
+        motif = first + second + ([["restart", a]] if rng.random() < .5 else []) + [["reinstall", changed]] + \
+            rng.choice([[["send", a, changed, "x"]], [["send", changed, a, "x"]],
+                        [["send", changed, a, "x"], ["send", a, changed, "x"]]])
+        at = 0 if rng.random() < .5 else rng.randrange(len(ops) + 1)
+        ops[at:at] = motif
+    ops = legalise(ops, n)
     return {"name": "random", "n": n, "autotrust": auto, "ops": ops, "reorder": rng.random() < .5,
             "sched_seed": rng.randrange(1 << 30), "pad_seed": rng.randrange(1 << 30)}
 
@@ -476,12 +550,12 @@ def check_case(ctx, model, case, stats):
 def shrink(ctx, model, case, pred):
     """drop ops while the same kind of failure remains (cheap delta debugging)."""
     ops = list(case["ops"])
-    if len(ops) > 22 or "expect" in case:
+    if len(ops) > 28 or "expect" in case:
         return case
     i = 0
-    budget = 32
+    budget = 40
     while i < len(ops) and budget > 0:
-        cand = dict(case, ops=ops[:i] + ops[i + 1:])
+        cand = dict(case, ops=legalise(ops[:i] + ops[i + 1:], case["n"]))
         cand.pop("schedule", None)
         budget -= 1
         try:
@@ -519,7 +593,7 @@ def run(ctx):
         if key not in distinct:
             distinct.add(key)
             kinds = set(o[0] for o in case["ops"])
-            if "reinstall" in kinds and ("send" in kinds or "notify" in kinds):
+            if ("reinstall" in kinds or "clone" in kinds) and ("send" in kinds or "notify" in kinds):
                 nontrivial += 1
         if found:
             kinds = set(k for k, _, _ in found)
@@ -558,12 +632,14 @@ def run(ctx):
     ctx.coverage["exhaustive"] = False
     return ctx.finish(
         rule="case = history over 2-3 accounts (send a->b, reinstall a, restart a = end of the process with the store "
-             "connection closed uncommitted, identity-change notification about b to a, server duplicate; per-account "
+             "connection closed uncommitted, clone a of b = a reinstalls carrying b's identity key pair, identity-change "
+             "notification about b to a, server duplicate; per-account "
              "auto-trust flag; FIFO or seeded random server schedule, bursts held in the queue); %d scripted "
              "histories (both auto-trust settings) + seeded random ones, 3 in 10 of them with an inserted motif "
              "(identity learnt by notification / parked message / failing first message, restart, the contact "
-             "reinstalls, contact again); non-trivial = distinct history with at least one reinstall and one send "
-             "or notification" % len(scripted_cases()),
+             "reinstalls, contact again), 2 in 10 of the 3-account ones with a shared-key motif (two contacts "
+             "hold the same identity key, one of them then changes it); non-trivial = distinct history with at "
+             "least one reinstall or clone and one send or notification" % len(scripted_cases()),
         assumptions_text=ASSUME)
 
 
